@@ -48,8 +48,38 @@ var targets = []string{
 	"data.ReadMapping", "lease.ReadLease", "lease.ReadLease2",
 }
 
-// value builds the shared value deterministically from (target, seed).
+// encCache: model signing with DSA/ECDSA keys is randomised, so the encoding of a
+// case is produced once and parsed twice (baseline copy and shared value).
+var encCache sync.Map
+
+type encoded struct {
+	b   []byte
+	typ int
+}
+
+// value builds the shared value from (target, seed); parsed values come from one
+// cached encoding, constructed values only from deterministic signers.
 func value(c Case) (any, error) {
+	key := fmt.Sprintf("%s/%d/%v", c.Target, c.Seed, c.Built)
+	if e, ok := encCache.Load(key); ok {
+		en := e.(encoded)
+		res := lib.ByName(c.Target).Parse(append([]byte{}, en.b...), en.typ)
+		if !res.Accepted {
+			return nil, fmt.Errorf("%s rejected the cached encoding: %v", c.Target, res.Err)
+		}
+		return res.Value, nil
+	}
+	v, b, typ, err := build(c)
+	if err != nil {
+		return nil, err
+	}
+	if b != nil {
+		encCache.Store(key, encoded{b, typ})
+	}
+	return v, nil
+}
+
+func build(c Case) (any, []byte, int, error) {
 	id := gen.IdentSpec{SigType: []int{7, 0, 1, 11}[c.Seed%4], EncType: []int{4, 0}[c.Seed%2], KeySeed: c.Seed%1000 + 1, PadSeed: c.Seed, Extra: []string{"", "0102"}[c.Seed%2]}
 	if id.SigType == 11 && (c.Target == "router_identity.ReadRouterIdentity" || c.Target == "router_info.ReadRouterInfo") {
 		id.SigType = 7
@@ -65,11 +95,14 @@ func value(c Case) (any, error) {
 		if c.Built {
 			switch c.Target {
 			case "keys_and_cert.ReadKeysAndCert":
-				return libkeys.KAC(mid)
+				v, err := libkeys.KAC(mid)
+				return v, nil, 0, err
 			case "destination.ReadDestination":
-				return libkeys.Dest(mid)
+				v, err := libkeys.Dest(mid)
+				return v, nil, 0, err
 			default:
-				return libkeys.RouterIdent(mid)
+				v, err := libkeys.RouterIdent(mid)
+				return v, nil, 0, err
 			}
 		}
 		b = mid.Encode()
@@ -92,14 +125,14 @@ func value(c Case) (any, error) {
 		if c.Target == "lease_set2.ReadLeaseSet2" {
 			s := gen.LS2Spec{Header: h, Options: opts[:3], Keys: []gen.KeySpec{{Type: 4, Len: -1, Seed: 1}, {Type: 0, Len: -1, Seed: 2}}, Leases: []gen.Lease2Spec{{Seed: 1, Tunnel: 2, End: 1800000000}, {Seed: 2, Tunnel: 3, End: 1800000001}}}
 			m, dk, ok := s.Build()
-			if c.Built && h.Offline == nil {
+			if c.Built && h.Offline == nil && (id.SigType == 7 || id.SigType == 11) {
 				d, err := libkeys.ParsedDest(m.Dest)
 				if err != nil {
-					return nil, err
+					return nil, nil, 0, err
 				}
 				priv, err := libkeys.SigPriv(ok)
 				if err != nil {
-					return nil, err
+					return nil, nil, 0, err
 				}
 				_ = dk
 				mp, _ := data.GoMapToMapping(map[string]string{"a": "", "host": "1.2.3.4"})
@@ -111,7 +144,7 @@ func value(c Case) (any, error) {
 				_ = l2
 				ls, err := lease_set2.NewLeaseSet2(d, m.Published, m.Expires, m.Flags, nil, *mp, keys, nil, priv)
 				if err == nil {
-					return &ls, nil
+					return &ls, nil, 0, nil
 				}
 			}
 			b = m.Encode()
@@ -141,11 +174,11 @@ func value(c Case) (any, error) {
 		b = model.Fill(40, c.Seed)
 	}
 	e := lib.ByName(c.Target)
-	res := e.Parse(b, typ)
+	res := e.Parse(append([]byte{}, b...), typ)
 	if !res.Accepted {
-		return nil, fmt.Errorf("%s rejected the generated encoding: %v", c.Target, res.Err)
+		return nil, nil, 0, fmt.Errorf("%s rejected the generated encoding: %v", c.Target, res.Err)
 	}
-	return res.Value, nil
+	return res.Value, b, typ, nil
 }
 
 type op struct {
@@ -218,19 +251,27 @@ func operations(v any) []op {
 }
 
 func check(c Case, r *ev.Rec) error {
+	// The baseline comes from a separately built copy: the shared value must not
+	// have been touched by any call before the fan-out (a lazily filled cache is
+	// only racy on first use).
+	vb, err := value(c)
+	if err != nil {
+		return err
+	}
+	baseOps := operations(vb)
+	base := make([]string, len(baseOps))
+	for i, o := range baseOps {
+		base[i] = o.run()
+	}
 	v, err := value(c)
 	if err != nil {
 		return err
 	}
 	ops := operations(v)
-	if len(ops) == 0 {
+	if len(ops) == 0 || len(ops) != len(baseOps) {
 		return nil
 	}
-	// sequential baseline
-	base := make([]string, len(ops))
-	for i, o := range ops {
-		base[i] = o.run()
-	}
+	before := lib.Dump(reflect.ValueOf(v))
 	if p := os.Getenv("VERIF_OUT"); p != "" {
 		if b, err := json.Marshal(struct {
 			Property string `json:"property"`
@@ -284,7 +325,11 @@ func check(c Case, r *ev.Rec) error {
 		b := bad[0]
 		return fmt.Errorf("%s: goroutine %d step %d: %s returned a different result concurrently than sequentially (%d mismatches)\n concurrent: %.300s\n sequential: %.300s", c.Target, b.g, b.k, b.name, len(bad), b.got, base[indexOf(ops, b.name)])
 	}
-	// nothing was mutated
+	// nothing was mutated: neither what the operations report nor the receiver's
+	// own (also unexported) state
+	if after := lib.Dump(reflect.ValueOf(v)); after != before {
+		return fmt.Errorf("%s: the receiver's state changed during read-only operations (deep dump before and after differ)", c.Target)
+	}
 	for i, o := range ops {
 		if got := o.run(); got != base[i] {
 			return fmt.Errorf("%s: %s returns a different result after the concurrent reads (a read-only operation mutated the value)", c.Target, o.name)
